@@ -29,7 +29,7 @@ Proof.
 Qed.
 
 Section Compact.
-  Variable d : list sname.
+  Variable d : sname.
 
   Definition out_calls (ix : nat * sname) : list call :=
     [CCreate (NComp d (fst ix)); CWrite (NComp d (fst ix)) (CkSst (snd ix)); CSync (NComp d (fst ix))].
@@ -135,7 +135,7 @@ Lemma compact_walk s v gc ins outs : Run s v -> compact_ok v ins outs ->
 Proof.
   intros R [Hincl Hents]. pose proof (run_good s v R) as Hg. destruct R as [Hw Hst Hs Hl Hstrs Hlogs Hcur].
   set (E := all_entries v) in *. unfold compact_prog.
-  set (eo := enumerate 0 outs). set (rl := filter (fun x => negb (mem_sname x outs)) ins).
+  set (d := sort_entries (concat ins)). set (eo := enumerate 0 outs). set (rl := filter (fun x => negb (mem_sname x outs)) ins).
   (* where every branch ends *)
   assert (Hfinal : forall s9, Good s9 E -> mani_strs s9 = apply_edit (v_files v) (CkEdit outs ins) ->
                      (forall n, lookup (NLog n) s9 = lookup (NLog n) s) -> Run s9 (op_next v (OpCompact gc ins outs))).
@@ -143,7 +143,7 @@ Proof.
     constructor; cbn [op_next v_files v_cur v_mem]; try assumption.
     - intros n. rewrite Hlog9. apply Hlogs.
     - destruct Hcur as (lf & Hlf & Hmem). exists lf. split; [now rewrite Hlog9|exact Hmem]. }
-  assert (Hclean : Forall irrelevant_call (map (fun ix : nat * sname => CUnlink (NComp ins (fst ix))) eo ++ [CRmdir (NCompDir ins)])).
+  assert (Hclean : Forall irrelevant_call (map (fun ix : nat * sname => CUnlink (NComp d (fst ix))) eo ++ [CRmdir (NCompDir d)])).
   { apply Forall_app. split; [|repeat constructor; intros n [<-|[]]; reflexivity].
     apply Forall_forall. intros c Hc. apply in_map_iff in Hc. destruct Hc as (ix & <- & _). intros n [<-|[]]. reflexivity. }
   (* A and B: the left-over directory, the fresh directory *)
@@ -151,17 +151,17 @@ Proof.
   apply walk_app_must.
   eapply walk_conseq; [|apply walk_irrelevant; [|exact Hg]].
   2:{ apply Forall_app. split; [|repeat constructor; intros n [<-|[]]; reflexivity].
-      destruct (exists_name (NCompDir ins) s); [|constructor].
+      destruct (exists_name (NCompDir d) s); [|constructor].
       apply Forall_app. split; [|repeat constructor; intros n [<-|[]]; reflexivity].
       apply Forall_forall. intros c Hc. apply in_map_iff in Hc. destruct Hc as (n & <- & Hn).
       unfold comp_files in Hn. apply in_map_iff in Hn. destruct Hn as ([m f] & <- & Hm). apply filter_In in Hm.
       destruct Hm as [_ Hm]. cbn [fst] in *. intros n' [<-|[]]. destruct m; try discriminate. reflexivity. }
   cbn beta. intros s2 (_ & Hg2 & Hsame2).
   (* C: the outputs *)
-  change (flat_map (fun ix : nat * sname => [CCreate (NComp ins (fst ix)); CWrite (NComp ins (fst ix)) (CkSst (snd ix)); CSync (NComp ins (fst ix))]) eo)
-    with (flat_map (out_calls ins) eo).
+  change (flat_map (fun ix : nat * sname => [CCreate (NComp d (fst ix)); CWrite (NComp d (fst ix)) (CkSst (snd ix)); CSync (NComp d (fst ix))]) eo)
+    with (flat_map (out_calls d) eo).
   apply walk_app_must.
-  eapply walk_conseq; [|apply (outputs_walk ins eo 0%nat s2 E None Hg2); [intros; lia|apply enumerate_nodup]].
+  eapply walk_conseq; [|apply (outputs_walk d eo 0%nat s2 E None Hg2); [intros; lia|apply enumerate_nodup]].
   cbn beta. intros s3 (Hg3 & Hsrc3 & Ho3).
   assert (Hrel3 : forall n, relevant n = true -> lookup n s3 = lookup n s).
   { intros n Hn. rewrite Ho3; [now apply Hsame2|]. intros j _ ->. discriminate. }
@@ -177,7 +177,7 @@ Proof.
   apply (mani_block_defer outs ins _ s4 E E None); [|exact Hg4| | |now left|].
   { assert (Hr : cleanup_like (map (fun x => (CRename (NSst x) (NTrashSst x), Retire)) rl))
       by (apply Forall_forall; intros cm Hcm; apply in_map_iff in Hcm; destruct Hcm as (x & <- & _); now left).
-    assert (Hc : cleanup_like (must (map (fun ix : nat * sname => CUnlink (NComp ins (fst ix))) eo ++ [CRmdir (NCompDir ins)]))).
+    assert (Hc : cleanup_like (must (map (fun ix : nat * sname => CUnlink (NComp d (fst ix))) eo ++ [CRmdir (NCompDir d)]))).
     { apply Forall_forall. intros cm Hcm. unfold must in Hcm. apply in_map_iff in Hcm. destruct Hcm as (c & <- & Hc).
       right. split; [reflexivity|]. rewrite Forall_forall in Hclean. now apply Hclean. }
     destruct gc; apply Forall_app; auto. }
